@@ -389,5 +389,9 @@ def small_values(names, depth, text='abc', cls='S'):
 
 def small_scopes(tier):
     """(names, depth, text) scopes: three names two steps deep, and two conflicting names three steps deep (the shortest
-    histories with a below-insert, its removal and a further application) - on 2 characters in the quick tier"""
-    return [(['red', 'blue', 'bold'], 2, 'abc'), (['red', 'blue'], 3, 'ab' if tier == 'quick' else 'abc')]
+    histories with a below-insert, its removal and a further application) - on 2 characters in the quick tier; the
+    thorough tier adds four steps on 2 characters"""
+    scopes = [(['red', 'blue', 'bold'], 2, 'abc'), (['red', 'blue'], 3, 'ab' if tier == 'quick' else 'abc')]
+    if tier != 'quick':
+        scopes.append((['red', 'blue'], 4, 'ab'))   # 70 000 four-step histories (e.g. insert below, remove, apply across, remove)
+    return scopes
